@@ -55,7 +55,11 @@ def py_floordiv(a, b):
 
 
 def py_mod(a, b):
-    return a - b * py_floordiv(a, b)
+    # z3's mod has the sign of ... always in [0, |b|): equals Python's % for b > 0; for b < 0 Python's result is in (b, 0]
+    bs = z3.simplify(b)
+    if z3.is_int_value(bs) and bs.as_long() > 0:
+        return a % b
+    return z3.If(b > 0, a % b, -((-a) % (-b)))
 
 
 class EvalMixin:
